@@ -23,7 +23,8 @@ inductive Act
   | ok        -- returns nil
   | err       -- returns an error
   | panic     -- panics
-  | reenter   -- calls the cancel function of its own observation from inside the callback
+  | reenter   -- the cancel function of this observation is called while the callback runs: by the callback
+              -- itself (on the engine's goroutine) or, which the code cannot tell apart, by another goroutine
   deriving DecidableEq, Repr, Inhabited
 
 /-- what an observer is told -/
@@ -65,13 +66,6 @@ def permBy {α : Type} : List Nat → List α → List α
     | some (x, r) => x :: permBy cs r
     | none => l
 
-def Msg.noReenter {S : Type} : Msg S → Bool
-  | .add _ cb => cb.all (fun a => a != .reenter)
-  | _ => true
-
-/-- no observer's callback ever calls its own cancel function from inside the callback -/
-def noReenter {S : Type} (h : List (Msg S)) : Bool := h.all Msg.noReenter
-
 /-! ## Impl: the engine loop -/
 namespace Impl
 
@@ -109,16 +103,19 @@ structure UpdRes (S : Type) where
   cb : List Act
   blocked : Bool
 
-/-- `func (w *watcher) update(ctx, global) (ok bool)` — repaired -/
+/-- `func (w *watcher) update(ctx, global) bool`:
+`state = busy; if !w.send(..) { return false }; if !CAS(state, busy, idle) { w.onclose(nil); return false }; return true`
+where `send` evaluates, calls `onupdate`, and on failure calls `onclose(err)` and returns false.  The
+cancel function, finding the watcher busy, only marks it (`CAS(state, busy, cancelled)`) and returns. -/
 def wUpdate {S : Type} (w : Watcher S) (g : S) : UpdRes S :=
   match w.expr g with
-  | none => ⟨[.closed true], false, w.cb, false⟩             -- w.onclose(err); return false
+  | none => ⟨[.closed true], false, w.cb, false⟩             -- send: w.onclose(err); return false
   | some v =>
-    match w.cb.headD .ok with                                 -- err = w.onupdate(value)
-    | .ok => ⟨[.val v], true, w.cb.tail, false⟩
-    | .err => ⟨[.val v, .closed true], false, w.cb.tail, false⟩     -- w.onclose(err); return false
-    | .panic => ⟨[.val v, .closed true], false, w.cb.tail, false⟩   -- recover: ok = false; w.onclose(wrapped)
-    | .reenter => ⟨[.val v], true, w.cb.tail, true⟩           -- cancel(): `e.removeWatcher <- id` on the loop's goroutine
+    match w.cb.headD .ok with                                 -- send: err = w.onupdate(value)
+    | .ok => ⟨[.val v], true, w.cb.tail, false⟩              -- CAS(busy, idle) succeeds
+    | .err => ⟨[.val v, .closed true], false, w.cb.tail, false⟩     -- send: w.onclose(err); return false
+    | .panic => ⟨[.val v, .closed true], false, w.cb.tail, false⟩   -- send: recover: ok = false; w.onclose(wrapped)
+    | .reenter => ⟨[.val v, .closed false], false, w.cb.tail, false⟩ -- cancel marked it: CAS fails; w.onclose(nil); return false
 
 structure RangeRes (S : Type) where
   ws : List (Watcher S)
@@ -199,7 +196,66 @@ def log {S : Type} (s : State S) (id : Nat) : List (Ev S) := logOf id s.trace
 
 end Impl
 
-/-! ## Old: the loop before the repair (kept so that the findings are machine-checked) -/
+/-! ## Prev: the loop after the first repairs but before the re-entrant-cancel repair (kept so that
+finding KF-engine-reentrant-cancel stays machine-checked) -/
+namespace Prev
+open Impl (Status Out State UpdRes RangeRes mapGet mapDel mapPut closeAll)
+
+/-- `(*watcher).update` when cancel still sent on `removeWatcher` unconditionally -/
+def wUpdate {S : Type} (w : Watcher S) (g : S) : UpdRes S :=
+  match w.expr g with
+  | none => ⟨[.closed true], false, w.cb, false⟩
+  | some v =>
+    match w.cb.headD .ok with
+    | .ok => ⟨[.val v], true, w.cb.tail, false⟩
+    | .err => ⟨[.val v, .closed true], false, w.cb.tail, false⟩
+    | .panic => ⟨[.val v, .closed true], false, w.cb.tail, false⟩
+    | .reenter => ⟨[.val v], true, w.cb.tail, true⟩           -- cancel(): `e.removeWatcher <- id` on the loop's goroutine
+
+def rangeUpdate {S : Type} (g : S) : List (Watcher S) → RangeRes S
+  | [] => ⟨[], [], false⟩
+  | w :: r =>
+    let u := wUpdate w g
+    let w' : Watcher S := ⟨w.id, w.expr, u.cb⟩
+    if u.blocked then ⟨w' :: r, u.evs.map (Out.ev w.id), true⟩
+    else
+      let rr := rangeUpdate g r
+      ⟨if u.ok then w' :: rr.ws else rr.ws, u.evs.map (Out.ev w.id) ++ rr.outs, rr.blocked⟩
+
+def step {S : Type} (s : State S) (m : Msg S) : State S :=
+  match s.status with
+  | .running =>
+    match m with
+    | .add e c =>
+      let id := s.lastID + 1
+      let u := wUpdate ⟨id, e, c⟩ s.global
+      let ws := mapPut s.watchers ⟨id, e, u.cb⟩
+      { s with lastID := id,
+               trace := s.trace ++ u.evs.map (Out.ev id),
+               watchers := if u.blocked || u.ok then ws else mapDel ws id,
+               status := if u.blocked then .wedged else .running }
+    | .remove id =>
+      match mapGet s.watchers id with
+      | some _ => { s with trace := s.trace ++ [Out.ev id (.closed false)], watchers := mapDel s.watchers id }
+      | none => s
+    | .update e ord =>
+      match e s.global with
+      | none => { s with trace := s.trace ++ [Out.reply false] }
+      | some v =>
+        let rr := rangeUpdate v (permBy ord s.watchers)
+        { s with global := v,
+                 trace := s.trace ++ Out.reply true :: rr.outs,
+                 watchers := rr.ws,
+                 status := if rr.blocked then .wedged else .running }
+    | .hangup ord =>
+      { s with trace := s.trace ++ closeAll (permBy ord s.watchers), watchers := [] }
+  | _ => s
+
+def run {S : Type} (g0 : S) (h : List (Msg S)) : State S := h.foldl step (Impl.init g0)
+
+end Prev
+
+/-! ## Old: the loop before any repair (kept so that the findings are machine-checked) -/
 namespace Old
 open Impl (Status Out State UpdRes RangeRes mapGet mapDel mapPut closeAll)
 
@@ -276,7 +332,7 @@ def deliver {S : Type} (expr : S → Option S) (cb : List Act) (log : List (Ev S
     | .ok => .live expr cb.tail (log ++ [.val v])
     | .err => .dead (log ++ [.val v, .closed true])
     | .panic => .dead (log ++ [.val v, .closed true])
-    | .reenter => .dead (log ++ [.val v, .closed false])   -- the property demands: cancelled, nothing else happens
+    | .reenter => .dead (log ++ [.val v, .closed false])   -- cancelled: closed once, nothing else happens
 
 def Obs.notify {S : Type} (g : S) : Obs S → Obs S
   | .live e c l => deliver e c l g
